@@ -422,6 +422,7 @@ func checkC15(p *Prog, res *Result, tier string) {
 	res.rule("C15-R2", "the lock's timestamp field is fed only by GetTimestampOracle and is what Describe() prints", 4)
 	res.rule("C15-R3", "TSO.Commit raises the dealt counter monotonically (C02-R1)", 5)
 	res.rule("C15-R4", "nobody else resets the counters (C02-R3)", 3)
+	res.rule("C15-R5", "a failed read of the engine timestamp fails the lock operation (its error is returned), so that the lock never reports success with a stale or zero timestamp cached", 2)
 
 	// ---- R1 ----
 	checkLeaderStart(p, r, res, "C15-R1")
@@ -484,6 +485,26 @@ func checkC15(p *Prog, res *Result, tier string) {
 			res.add("C15-R4", o.Rule+" "+o.Construct, o.Status, o.Pos, o.Detail)
 		}
 	}
+	// ---- R5: the oracle's error is preserved by the lock operations ----
+	{
+		ep := p.ssaPkg("pkg/backend/election")
+		checkErrorPreservation(p, res, "C15-R5",
+			func(f *ssa.Function) bool { return f.Pkg == ep },
+			func(c ssa.CallInstruction) (string, bool) {
+				if c.Common().IsInvoke() && c.Common().Method == r.KVGetTSO {
+					return "storage.GetTimestampOracle", true
+				}
+				if sc := c.Common().StaticCallee(); sc != nil && sc.Pkg == ep && sc.Blocks != nil && errorResultIndex(sc.Signature) >= 0 {
+					for _, c2 := range callsIn(sc) {
+						if c2.Common().IsInvoke() && c2.Common().Method == r.KVGetTSO {
+							return funcName(sc), true
+						}
+					}
+				}
+				return "", false
+			}, "the new leader would seed its revision counters from a timestamp that was never read (0 or stale) and hand out revisions the old leader already used")
+	}
+
 }
 
 // derivesFromCallArgs is derivesFrom that also looks through the arguments of any call (fmt.Sprintf, strings.Split,
